@@ -669,7 +669,7 @@ func c17Prim(r *Rng) map[string]any {
 func c17Random(r *Rng) C17Case {
 	doc := map[string]any{"swagger": "2.0", "info": map[string]any{"title": "t", "version": "1"}}
 	if r.Chance(70) {
-		doc["host"] = "api.example.com"
+		doc["host"] = Pick(r, []string{"api.example.com", "api.example.com", "staging.example.com:8443", "localhost:8080"})
 		if r.Chance(60) {
 			doc["basePath"] = Pick(r, []string{"/v1", "/"})
 		}
